@@ -27,8 +27,11 @@ for m in sorted(glob.glob(V+'/seeded/C*/meta.json')):
     elif not det: c='**not detected** — '+d.get('why_not_detected','')
     else: c='; '.join(f"{p}: `{ks[0]}`"+(f" (+{len(ks)-1})" if len(ks)>1 else '') for p,ks in det.items())
     note=d.get('rule_history','')
+    if d.get('blind'): note=('blind round: **'+d['blind']+'**'+('; '+note if note else ''))
     rows.append(f"| {d['id']} | {d['property']} | {d['what_changed']} | {c}{' — '+note if note else ''} |")
-seeds=f"{caught} of {n} seeded changes are reported by at least one check on the current machinery.\n\n"+"\n".join(rows)
+bl=[json.load(open(m)) for m in sorted(glob.glob(V+'/seeded/C*/meta.json'))]
+bl=[d for d in bl if d.get('blind')]
+seeds=f"{caught} of {n} seeded changes are reported by at least one check on the current machinery. Blind round 3 so far: {sum(1 for d in bl if d['blind']=='caught')} of {len(bl)} caught on first contact.\n\n"+"\n".join(rows)
 s=open(V+'/DESIGN.md').read()
 s=block('fixes',fixes,s); s=block('open',openf,s); s=block('seeds',seeds,s)
 # per-property obligation counts
